@@ -323,12 +323,17 @@ def c02(run):
                 "NoStuck (a rule yields a value or an error class for every operator x operand-kind combination), Bounded, machine = denotation; each generated "
                 "program replayed; impl->spec: seeded untyped programs (depth<=6..8) over every operator, macro, built-in, literal form, message literals, "
                 "host functions, against contexts holding i64/u64 extremes, NaN/inf, non-ASCII text, nested collections, durations/timestamps at chrono's limits, "
-                "function values; plus every ordered pair of a ~110-value pool under the host-side + - * / % == partial_cmp. A panic or time-out is never a "
+                "function values; a kind table: ~80 unary and ~40 binary program forms (every operator, built-in, macro, zoo signature) applied to every (pair of) "
+                "pool value(s) covering each kind and its extremes, malformed duration/number/regex strings included; plus every ordered pair of a ~110-value pool under the host-side + - * / % == partial_cmp. A panic or time-out is never a "
                 "behaviour of the specification; non-trivial = not a bare leaf")
     mc_vectors(run, "CelEvalMC_C02")
     run.exhaustive = True
     path = drive_eval(run, "c02", run.q(4000, 120000), depth=run.q(6, 8))
     validate_trace(run, "CelEvalTrace", path, nontrivial=lambda c: c.get("ast", {}).get("k") not in ("lit", "id"))
+    table = run.work("c02_table.ndjson")
+    celconf(["c02-table", "--seed", run.seed, "--tier", run.tier, "--out", table])
+    validate_trace(run, "CelEvalTrace", table, nontrivial=lambda c: True,
+                   what="kind table (every operator / built-in / macro form x every pair of value kinds): panic, or outcome outside the specification")
     pairs = drive_ops(run, "c02pairs")
     validate_trace(run, "CelOpTrace", pairs, sample_key=op_sample, nontrivial=lambda c: c["a"]["t"] != c["b"].get("t"),
                    what="host-side operator on two values: panic, or an outcome the value-level semantics does not allow")
